@@ -20,8 +20,25 @@ def _models(c, tier):
         # duplicate) in one track, windows 2/3/8, and T=3 x M=4 with a late track: every clause incl. NoPanic
         (MC, "ReceiverImpl_all_quick.cfg", dict(required_actions=("Process", "Choose"), **ok)),
         (MC, "ReceiverImpl_late_quick.cfg", dict(required_actions=("Process", "Register"), **ok)),
+        # ... and with one ABORTED upload (body breaks inside the first / a later fragment; must be a no-op on buffers,
+        # counters and the MPD), with and without the retry of the number in full
+        (MC, "ReceiverImpl_abort_quick.cfg", dict(required_actions=("Process",), **ok)),
         # still open in the current code: storage is not bounded (orphan files)
         (MC, "ReceiverImpl_cex_orphan.cfg", dict(expect_violated=("BoundedFiles",), **cex)),
+        # still open: a refused upload deletes <n - maxNrBufSegs>, which is listed afterwards (and the proposed fix)
+        (MC, "ReceiverImpl_cex_abortdelete.cfg", dict(expect_violated=("Listed",), **cex)),
+        (MC, "ReceiverImpl_abortdelete_fixed.cfg", dict(workers=2, timeout=600, coverage=False)),
+        # (R) generator: every interleaving of T=2 x M=4 for the windows 2, 3, 8
+        (MC, "ReceiverImpl_gen_quick.cfg", dict(workers=1, coverage=False, timeout=900)),
+        # (R) generator: every interleaving with one aborted upload + retry (quick: of the 3rd / 4th number, window 3,
+        # a seeded sample of 80 is replayed; thorough: every position, with / without retry, windows 2, 3, 8, 2500 replayed)
+        (MC, "ReceiverImpl_genabort_quick.cfg" if tier == "quick" else "ReceiverImpl_genabort.cfg",
+         dict(workers=1, coverage=False, timeout=1500)),
+    ]
+    slow = []
+    if tier == "thorough":
+        jobs += [(MC, "ReceiverImpl_gendev.cfg", dict(workers=1, coverage=False, timeout=1500))]
+        jobs += [
         # the algorithm as originally written (fix flags FALSE): its positive control and the documented design
         # counterexamples, one per repaired defect
         (MC, "ReceiverImpl_asw_sync_w8_quick.cfg", dict(required_actions=("Process",), **ok)),
@@ -32,23 +49,19 @@ def _models(c, tier):
         (MC, "ReceiverImpl_cex_startdiv0.cfg", dict(expect_violated=("NoPanicStartDiv0",), **cex)),
         (MC, "ReceiverImpl_cex_late.cfg", dict(expect_violated=("Listed",), **cex)),
         (MC, "ReceiverImpl_cex_boundedbuf.cfg", dict(expect_violated=("BoundedBuf",), **cex)),
-        # (R) generator: every interleaving of T=2 x M=4 for the windows 2, 3, 8
-        (MC, "ReceiverImpl_gen_quick.cfg", dict(workers=1, coverage=False, timeout=900)),
-    ]
-    slow = []
-    if tier == "thorough":
-        jobs += [(MC, "ReceiverImpl_gendev.cfg", dict(workers=1, coverage=False, timeout=1500))]
+        ]
         # the large instances run in the background while the histories are replayed (joined before the verdict)
         slow = [
             (MC, "ReceiverImpl_t3m5_all_thorough.cfg", dict(required_actions=("Process",), **ok)),
             (MC, "ReceiverImpl_t3late_thorough.cfg", dict(required_actions=("Process", "Register"), **ok)),
             (MC, "ReceiverImpl_t2m5_any_thorough.cfg", dict(required_actions=("Process",), **ok)),
             (MC, "ReceiverImpl_jumps_thorough.cfg", dict(required_actions=("Process",), **ok)),
+            (MC, "ReceiverImpl_t3abort_thorough.cfg", dict(required_actions=("Process",), **ok)),
         ]
     pool = ThreadPoolExecutor(max_workers=2)
     pending = [pool.submit(c.model, m, cfgn, **kw) for (m, cfgn, kw) in slow]
     pool.shutdown(wait=False)
-    res = c.models(jobs, parallel=4)
+    res = c.models(jobs, parallel=6)
     by = {cfg: r for (_, cfg, _), r in zip(jobs, res)}
     c.extra["design_counterexamples"] = {cfg[len("ReceiverImpl_cex_"):-4]: r.violated for cfg, r in by.items() if "_cex_" in cfg}
     gen = vlib.tlc_printed_json(by["ReceiverImpl_gen_quick.cfg"], "GEN")
@@ -60,8 +73,14 @@ def _models(c, tier):
             if k not in seen:
                 seen.add(k)
                 gen.append(g)
-    if not gen:
+    ab = vlib.tlc_printed_json(by["ReceiverImpl_genabort_quick.cfg" if tier == "quick" else "ReceiverImpl_genabort.cfg"], "GEN")
+    if not gen or not ab:
         raise MachineryError("explorer produced no behaviours")
+    c.extra["tlc_enumerated_abort_histories"] = len(ab)
+    import random
+    ab.sort(key=lambda g: json.dumps(g, sort_keys=True))
+    ab = random.Random(c.seed).sample(ab, min(80 if tier == "quick" else 2500, len(ab)))
+    gen += ab
     return gen, exhaustive, pending
 
 
@@ -86,11 +105,14 @@ def _enrich(events, failures):
         ev = e["ev"]
         if ev == "hdr":
             cur = {"hdr": e, "start": None, "prefill": {}, "lastfill": {}, "window": e["initWindow"], "maxSeen": 0,
-                   "startedPrev": False, "ups": {}, "snaps": {}}
+                   "startedPrev": False, "ups": {}, "snaps": {}, "refused": []}
         elif ev == "up" and cur is not None:
             snap = {"maxSeenBefore": cur["maxSeen"], "windowBefore": cur["window"], "startedPrev": cur["startedPrev"]}
             cur["snaps"][e["i"]] = snap
             hk = e["hook"]
+            if e["kind"] == "media" and e["status"] != 200 and e.get("nproc", 0) > 0:
+                # refused after its first fragment had been taken: the handler has already made room for it
+                cur["refused"].append((ln, e["track"], e["n"]))
             if e["kind"] == "media" and e["status"] == 200:
                 cur["ups"].setdefault(e["track"], []).append((ln, e["n"], cur["startedPrev"]))
                 cur["maxSeen"] = max(cur["maxSeen"], e["n"])
@@ -157,6 +179,13 @@ def _enrich(events, failures):
             nreps = sum(len(a["reps"]) for a in e["mpd"]["as"])
             f["mpd_reps"] = nreps
             f["reps_gt_nrTracks"] = bool(e["hook"]["have"] and nreps > e["hook"]["nrTracks"])
+            # the missing file <rep>/<k> is the one a REFUSED upload of number k + maxNrBufSegs made room for
+            try:
+                k = d[d.index("n") + 1]
+            except Exception:
+                k = None
+            f["deleted_by_refused_upload"] = bool(k is not None and any(
+                l <= f["line"] and t == rep and m == k + h["maxBuf"] for (l, t, m) in cur["refused"]))
         out.append(f)
     return out
 
@@ -217,7 +246,7 @@ def run(tier, replay=None):
     with open(genf, "w") as f:
         for g in gen:
             f.write(json.dumps(g) + "\n")
-    n = 260 if tier == "quick" else 1500
+    n = 170 if tier == "quick" else 1500
     args = ["-gen", genf, "-seed", c.seed, "-n", n]
     hists = c.work / "hists.ndjson"
     vlib.run_driver(drive, ["-plan", hists] + args)
@@ -236,15 +265,40 @@ def run(tier, replay=None):
     # non-vacuity: how often each clause had something to decide
     ne = {"hdr": 0, "up": 0, "poll": 0, "end": 0, "crash": 0}
     ev_n = {"accepted_media_uploads": 0, "publications_judged_by_listed": 0, "listed_numbers": 0,
-            "bounded_files_judged": 0, "hook_observations": 0, "observations_with_mpd": 0}
+            "bounded_files_judged": 0, "hook_observations": 0, "observations_with_mpd": 0,
+            "aborted_uploads_refused": 0, "aborted_after_first_fragment": 0, "retries_accepted_after_abort": 0,
+            "accepted_chunked_segments": 0, "listed_numbers_compared_with_decoded_file": 0}
+    aborted = set()
+    cur_as = []
     started_prev = False
     for e in events:
         ne[e["ev"]] = ne.get(e["ev"], 0) + 1
         if e["ev"] == "hdr":
             started_prev = False
+            aborted = set()
+            cur_as = []
         if e["ev"] != "up":
             continue
         acc = e["kind"] == "media" and e["status"] == 200
+        if e["kind"] == "media" and e["cut"]:
+            ev_n["aborted_uploads_refused"] += e["status"] != 200
+            ev_n["aborted_after_first_fragment"] += bool(e["status"] != 200 and e["nproc"] > 0)
+            aborted.add((e["track"], e["n"]))
+        elif acc:
+            ev_n["retries_accepted_after_abort"] += (e["track"], e["n"]) in aborted
+            aborted.discard((e["track"], e["n"]))
+            ev_n["accepted_chunked_segments"] += e["frags"] > 1
+        if e["mpd"]["state"] == "new":
+            cur_as = e["mpd"]["as"] if e["mpd"]["ok"] else []
+        elif e["mpd"]["state"] == "absent":
+            cur_as = []
+        for a in cur_as:
+            have = [{x["n"] for x in e["files"].get(r, [])} for r in a["reps"]]
+            k = a["start"]
+            for x in a["S"]:
+                for _ in range(x["r"] + 1):
+                    ev_n["listed_numbers_compared_with_decoded_file"] += sum(k in hv for hv in have)
+                    k += 1
         ev_n["accepted_media_uploads"] += acc
         ev_n["bounded_files_judged"] += bool(acc and started_prev)
         ev_n["hook_observations"] += bool(e["hook"]["have"])
